@@ -87,7 +87,7 @@ public:
       this->chunk.c_chunk = 0;
       this->chunk.c_valid = 0;
       this->chunk.b_ptr = ptr + blStrings->getField(bucket);
-      this->chunk.b_remain = maxcomplength;
+      this->chunk.b_remain = headerBytes();
       if (kHT > kHU)
         this->chunk.str = new uchar[2 * maxlength + kHT];
       else
@@ -154,13 +154,20 @@ protected:
 
   ChunkScan chunk; //! Chunk scanning structure
 
+  /** Number of bytes that can be read for decoding the header of the
+      current bucket: never beyond the end of the bucket. */
+  inline uint headerBytes() {
+    size_t available = ptr + blStrings->getField(bucket + 1) - chunk.b_ptr;
+    return (maxcomplength < available) ? maxcomplength : (uint)available;
+  }
+
   inline void decodeHeader() {
     chunk.strLen = 0;
     chunk.advanced = 0;
     chunk.extracted = 1;
     chunk.c_chunk = 0;
     chunk.c_valid = 0;
-    chunk.b_remain = maxcomplength;
+    chunk.b_remain = headerBytes();
 
     // Variables used for adjusting purposes
     uint plen = 0;
